@@ -17,5 +17,7 @@ def run_pertype(prop, tier, seed, flavour="plain"):
     return core.run_sharded([{"name": "pertype", "binary": paths["pertype"], "nshards": core.NCPU, "out": od,
                               "args": ["--seed", str(seed), "--tier", tier, "--prop", prop]
                                       + core.deep(tier, **{"C14": dict(pairs=20000000, triples=10000000), "C16": dict(values=3000000),
-                                                           "C17": dict(probes=1000000)}.get(prop, {})),
+                                                           "C17": dict(probes=1000000)}.get(prop, {}))
+                                      + core.boost(tier, flavour, **{"C14": dict(pairs=1600000, triples=800000), "C16": dict(values=16000),
+                                                                     "C17": dict(probes=8000)}.get(prop, {})),
                               "env": core.SAN_ENV if flavour == "san" else None}], timeout=3600)
